@@ -282,7 +282,7 @@ pub fn gen_session(prop: &str, seed: u64, profile: u8, faults: bool) -> Case {
         for t in 0..turns {
             if faults && profile == 0 && rng.chance(1, 8) {
                 // a command the engine has to refuse or ignore: no game set, no search running
-                case.raw(*rng.pick(&["go depth 1", "go movetime 50", "go infinite", "stop", "wait", "show", "ucinewgame", "isready", "go"]));
+                case.raw(*rng.pick(&["go depth 1", "go movetime 50", "go infinite", "stop", "wait", "show", "ucinewgame", "isready", "go", "position startpos moves e2e5", "position startpos moves e2e4 e7e5 e1g1", "position", "position startpos moves"]));
             }
             case.push(GK::PosCur);
             if rng.chance(1, 8) {
@@ -1305,10 +1305,11 @@ pub fn gen_c15(seed: u64, thorough: bool) -> Case {
         case.params.max_steps = cap * 3 + 200_000;
         let nm = *rng.pick(&tiny);
         let r = ROOTS.iter().find(|x| x.name == nm).unwrap();
-        let len = match rng.below(4) {
+        let len = match rng.below(5) {
             0 => rng.range(380, 398),
             1 => rng.range(396, 402),
             2 => rng.range(400, 520),
+            3 => *rng.pick(&[126u64, 127, 128, 129, 254, 255, 256, 257, 258, 383, 384, 385, 511, 512, 513]),
             _ => rng.range(200, 398),
         };
         let mut moves = long_walk(&mut rng, r.fen, len);
